@@ -160,7 +160,7 @@ func c13WOverlapEval(f []string) (string, []string) {
 				default:
 				}
 			}
-			timer.Reset(20 * time.Second)
+			timer.Reset(5 * time.Second)
 			select {
 			case fin := <-t.arrived:
 				k.done = fin
@@ -263,7 +263,7 @@ func c13WOverlapGen(g *hx.Gen) {
 	// 3. random: preludes, schedules, request shapes
 	n := 60
 	if g.Thorough() {
-		n = 3000
+		n = 1500
 	}
 	for i := 0; i < n; i++ {
 		var pre []string
